@@ -662,6 +662,8 @@ def cases(rng, tier):
                          ("nuc", (1, 0), (2, 3, 2)), ("nuc", (2, 1), (2, 3, 2)), ("nuc", (-1, 0), (2, 3, 2)), ("nuc", (-1, -3), (2, 3, 2)),
                          ("nuc", (3, 1), (2, 3, 2, 3)), ("nuc", (2, 0), (2, 3, 2, 3)), ("nuc", (0, 3), (2, 3, 2, 3)),
                          ("fro", (2, 0), (2, 3, 2)), ("fro", (1, 2), (2, 3, 2)), (None, (2, 0), (2, 3, 2)), (None, (3, 1), (2, 3, 2, 3)),
+                         (None, (-1, -3), (2, 3, 2)), ("fro", (0, -2), (2, 3, 2)), (None, (-3, -1), (2, 3, 2)), ("fro", (-2, -1), (2, 3, 2)),
+                         (None, (1, -1), (3, 3, 3)), ("fro", (-1, 0), (3, 3, 3)), ("nuc", (0, -2), (2, 3, 2)), ("nuc", (-2, -3), (3, 3, 3)),
                          (3, 1, (2, 3, 2)), (2.5, -1, (2, 3, 2)), (4, 0, (2, 3, 2)), (None, 2, (2, 3, 2)),
                          # square and cubic inputs, where a mis-aligned broadcast of the norm would go unnoticed by shape
                          (3, 0, (3, 3)), (3, 1, (3, 3)), (3, -1, (3, 3)), (4, 1, (3, 3, 3)), (2.5, 0, (3, 3, 3)), (3, 2, (3, 3, 3)),
